@@ -195,6 +195,7 @@ class FakeSocketModule:
 
     def __init__(self, ha=("127.0.0.1", 56000)):
         self.registry = []        # every socket ever created or accepted, strong references
+        self.tls = False          # sockets made by socket() speak the ssl would-block vocabulary when True
         self.next_connect = None  # answer of the next connect_ex() call: 0 | errno value (consumed once; default 0)
         self.ha = ha
         self.listeners = []
@@ -221,7 +222,7 @@ class DualSocket(FakeConn):
     """a socket made by FakeSocketModule.socket(): becomes a listener on bind(), a client connection on connect_ex()"""
 
     def __init__(self, mod):
-        super().__init__(ca=mod.ha, ha=("127.0.0.1", 50009), registry=mod.registry)
+        super().__init__(ca=mod.ha, ha=("127.0.0.1", 50009), tls=mod.tls, registry=mod.registry)
         self.mod = mod
         self.pending = []
         self.listening = False
